@@ -22,7 +22,7 @@ def layouts(r, coin, blocks, k, thorough):
         offs[h] = (f, c.put_block(f, blocks[h].raw, pad=gen.rb(r, r.choice([0, 1, 7, 300]))))
     for h in range(n): c.add_record(blocks[h], h, *offs[h])
     for f in files: c.name_of[f] = r.choice(['blk%05d.dat', 'blk%d.dat', 'blk%020d.dat', 'blk%09d.dat']) % f
-    c.add_raw(b'f' + struct.pack('<I', 0), b'\x01\x02\x03'); c.add_raw(b'l', b'\x00'); c.add_raw(b'F\x07txindex', b'1'); c.add_raw(b'R', b'')
+    c.add_raw(b'f' + struct.pack('<I', 0), b'\x01\x02\x03'); c.add_raw(b'f' + struct.pack('<I', 77777), b'\x05\x06'); c.add_raw(b'f' + struct.pack('<I', 2), b''); c.add_raw(b'l', b'\x00');      # file-info keys, also for files that do not exist c.add_raw(b'F\x07txindex', b'1'); c.add_raw(b'R', b'')
     c.add_raw(b'a' + b'\x33' * 32, b'zz'); c.add_raw(b'c' + b'\x44' * 32, gen.rb(r, 40))
     c.extra_files = {'blk99998.dat': gen.rb(r, 100), 'rev00000.dat': gen.rb(r, 64), 'blkindex.dat': b'x', 'blk.dat': b'y', 'blk12x.dat': b'z', 'xblk00003.dat': b'', 'sub/blk00000.dat': gen.rb(r, 10)}
     if k % 2 == 0:
